@@ -72,6 +72,10 @@ func (q *UnsafeQuery) nextTableOrArchetype() bool {
 }
 
 func (q *UnsafeQuery) nextArchetype() bool {
+	if q.cursor.table < -1 {
+		// The query is finished or closed; do not touch the cursor, so that every further call panics as well.
+		panic("query iteration already finished. Create a new query to iterate again")
+	}
 	q.tables = nil
 	maxArchIndex := int32(len(q.world.storage.archetypes) - 1)
 	for q.cursor.archetype < maxArchIndex {
